@@ -605,11 +605,14 @@ pub fn run_batch(cfg: &BatchCfg) -> BatchResult {
     println!("VERIF_SEED={} property={} tier={} substrate={} threads={}", cfg.seed, prop, cfg.tier, cfg.substrate, cfg.threads);
     let finds: Mutex<Vec<Found>> = Mutex::new(Vec::new());
     let mut stats = Stats::default();
-    let block: u64 = if cfg.secs > 0.0 { 32_768 } else { cfg.runs.max(1) };
+    // count mode also proceeds in blocks, so that a tree on which thousands of
+    // runs violate (each possibly a 20 000-event livelock) is reported after the
+    // block that collected enough of them instead of after the whole batch
+    let block: u64 = if cfg.secs > 0.0 { 32_768 } else { cfg.runs.clamp(1, 262_144) };
     let mut start = cfg.start;
     let mut harness_error: Option<String> = None;
     loop {
-        let end = if cfg.secs > 0.0 { start + block } else { cfg.start + cfg.runs };
+        let end = if cfg.secs > 0.0 { start + block } else { (start + block).min(cfg.start + cfg.runs) };
         for pass in [false, true] {
             if cfg.force_skip_fast && !pass {
                 continue;
@@ -655,10 +658,13 @@ pub fn run_batch(cfg: &BatchCfg) -> BatchResult {
         if harness_error.is_some() {
             break;
         }
-        if cfg.secs <= 0.0 || t0.elapsed().as_secs_f64() >= cfg.secs {
+        if cfg.secs <= 0.0 && start >= cfg.start + cfg.runs {
             break;
         }
-        if finds.lock().unwrap().len() >= 4000 {
+        if cfg.secs > 0.0 && t0.elapsed().as_secs_f64() >= cfg.secs {
+            break;
+        }
+        if finds.lock().unwrap().len() >= 1000 {
             break;
         }
     }
